@@ -53,6 +53,13 @@ def check(n, m, codes, mi, gi, mode, mx, wide_alphabet):
         seen.add(tuple(cols))
         if a.sequences[0] is not s1 and str(a.sequences[0].code.tolist()) != str(c1):
             return "sequences not preserved"
+    if gi == 0 and mode == 0 and mx == 0:
+        # documented defaults: gap_penalty=-10, terminal_penalty=True, local=False, max_number=1000
+        d1 = align_optimal(s1, s2, smat)
+        d2 = align_optimal(s1, s2, smat, gap_penalty=-10, terminal_penalty=True, local=False, max_number=1000)
+        best = K.brute_force(c1, c2, mat, -10, False, False, True)
+        if [(x.score, x.trace.tolist()) for x in d1] != [(x.score, x.trace.tolist()) for x in d2] or d1[0].score != best:
+            return f"align_optimal with default options: scores {[x.score for x in d1]}, with the documented defaults spelled out {[x.score for x in d2]}, optimum {best}"
     return None
 
 
